@@ -295,7 +295,13 @@ func outbound(w *vtrace.Writer, res *vres.Result, tr string, size int64) {
 		},
 		OnClose: func(r eio.Reason, err error) { mu.Lock(); closed = true; reason = string(r); mu.Unlock() },
 	}
-	ccfg := &eio.ClientConfig{Transports: []string{tr}, WebSocketDialOptions: &websocket.DialOptions{CompressionMode: websocket.CompressionDisabled}}
+	trs := []string{tr}
+	upgraded := make(chan struct{}, 1)
+	if tr == "upgraded-websocket" { // a websocket reached by upgrading from long-polling
+		trs = []string{"polling", "websocket"}
+	}
+	ccfg := &eio.ClientConfig{Transports: trs, UpgradeDone: func(string) { upgraded <- struct{}{} },
+		WebSocketDialOptions: &websocket.DialOptions{CompressionMode: websocket.CompressionDisabled}}
 	c, err := eio.Dial(ts.URL, cb, ccfg)
 	if err != nil {
 		res.Inconclusive("limit", err.Error(), 0)
@@ -308,6 +314,15 @@ func outbound(w *vtrace.Writer, res *vres.Result, tr string, size int64) {
 	case <-time.After(3 * time.Second):
 		res.Inconclusive("limit", "no server socket", 0)
 		return
+	}
+	if len(trs) > 1 {
+		select {
+		case <-upgraded:
+		case <-time.After(4 * time.Second):
+			res.Inconclusive("limit", "upgrade did not complete", 0)
+			return
+		}
+		time.Sleep(30 * time.Millisecond)
 	}
 	ss.Send(pkt(int(size), false))
 	dl := time.Now().Add(3 * time.Second)
@@ -390,7 +405,7 @@ func TestC13(t *testing.T) {
 	}
 	// a large undeclared body must not be swallowed
 	inbound(w, res, "10k", eio.ServerConfig{MaxBufferSize: 10000}, 10000, "polling-chunked", 48<<20)
-	for _, tr := range []string{"polling", "websocket"} {
+	for _, tr := range []string{"polling", "websocket", "upgraded-websocket"} {
 		for _, s := range []int64{100, 32767, 32768, 40000, 65536, 200000, 999000} {
 			outbound(w, res, tr, s)
 		}
